@@ -27,6 +27,7 @@ import json
 import multiprocessing
 import os
 import random
+import signal
 import subprocess
 import sys
 import traceback
@@ -115,6 +116,14 @@ def load_check(prop):
     return mod
 
 
+class RunTimeout(BaseException):
+    """A single simulated run exceeded its real-time limit (possible non-termination)."""
+
+
+def _on_alarm(signum, frame):
+    raise RunTimeout("run exceeded its time limit (possible non-termination in the code under test)")
+
+
 def execute_scenario(mod, sc):
     """Run one scenario under a clean global state; returns the outcome dict."""
     import numpy
@@ -123,8 +132,15 @@ def execute_scenario(mod, sc):
     gs = int(sc.get("global_seed", 0)) & 0x7FFFFFFF
     random.seed(gs)
     numpy.random.seed(gs)
-    with entropy.active(entropy.World(int(sc.get("entropy_world", 0)))):
-        out = mod.execute(sc)
+    limit = int(getattr(mod, "RUN_TIMEOUT", 30))
+    old_handler = signal.signal(signal.SIGALRM, _on_alarm)
+    signal.alarm(limit)
+    try:
+        with entropy.active(entropy.World(int(sc.get("entropy_world", 0)))):
+            out = mod.execute(sc)
+    finally:
+        signal.alarm(0)
+        signal.signal(signal.SIGALRM, old_handler)
     out.setdefault("violations", [])
     out.setdefault("log", [])
     out.setdefault("trace", "")
